@@ -68,6 +68,10 @@ class DriverInterp(Interp):
                 return VecV(self.call_closure(unref(args[1]), [deep(a0.elem)], e), a0.dim, a0.idx)
             if name == "shape_generic":
                 return Tup([DimV(a0.dim), DimV("1")])
+            if name == "map_with_location" and len(args) == 2:
+                # column vector: closure(row, col, element) with row = the element's own index, col = 0
+                r = self.call_closure(unref(args[1]), [Sc(Poly.var(a0.idx)), Sc(Poly.const(0)), deep(a0.elem)], e)
+                return VecV(r, a0.dim, a0.idx)
             if name == "iter_mut":
                 return IterMutV(a0)
             if name == "iter":
@@ -78,6 +82,13 @@ class DriverInterp(Interp):
                 return Sc(Poly.sym("len_" + a0.dim))
         if isinstance(a0, IterMutV) and name == "enumerate":
             return EnumV(a0)
+        if isinstance(a0, IterMutV) and name == "zip" and len(args) == 2:
+            r = unref(args[1])
+            if isinstance(r, Rec) and r.adt.endswith("RangeFrom") and isinstance(unref(r.f.get("start")), Sc) and unref(r.f["start"]).v.const_value() == 0:
+                ev_ = EnumV(a0)
+                ev_.swapped = True       # items are (element, index)
+                return ev_
+            raise Unsupported("zip of a mutable iterator with %r" % (r,))
         if isinstance(a0, (EnumV, IterMutV)) and name == "for_each" and len(args) == 2:
             return self.loop_over(a0, unref(args[1]), None, e)
         if isinstance(a0, VecIter) and name in ("filter_map", "filter") and len(args) == 2:
@@ -149,6 +160,8 @@ class DriverInterp(Interp):
             vec = itv.it.vec
             cell = [vec.elem]
             item = Tup([Sc(Poly.var(vec.idx)), Ref(cell, 0)])
+            if getattr(itv, "swapped", False):
+                item = Tup([item.vs[1], item.vs[0]])
             self.loop_sites.append(("enumerate-iter_mut", vec.idx))
         elif isinstance(itv, IterMutV):
             vec = itv.vec
@@ -182,6 +195,8 @@ class DriverInterp(Interp):
             cell2 = [rename_val(deep(original), {vec.idx: idx2})]
             if isinstance(itv, EnumV):
                 item2 = Tup([Sc(Poly.var(idx2)), Ref(cell2, 0)])
+                if getattr(itv, "swapped", False):
+                    item2 = Tup([item2.vs[1], item2.vs[0]])
             else:
                 item2 = Ref(cell2, 0)
             run_once(item2)
